@@ -467,7 +467,7 @@ Proof.
       set (n1 := mkWN (wn_pending n) m' []) in *.
       assert (SN : snode n = n1) by (unfold snode, n1; rewrite ST, CM; reflexivity).
       assert (SN1 : snode n1 = n1) by reflexivity.
-      set (w1 := w_set_nodes (alist_set k n1 (w_nodes w)) (w_set_g (set_h_prenode (k :: g_h_prenode (w_g w)) (w_g w)) w)) in *.
+      set (w1 := w_set_nodes (alist_set k n1 (w_nodes w)) (w_set_g (set_h_prenode (static_handlers (w_g w) k) (w_g w)) w)) in *.
       assert (G1 : alist_get k (w_nodes w1) = Some n1) by (unfold w1; simpl; apply alist_get_set_same).
       rewrite SN.
       destruct (in_dec string_dec k rest) as [IR|NR].
